@@ -60,7 +60,7 @@ func (ep *exprPrinter) str(v ssa.Value, d int) string {
 		return ep.str(x.X, d+1) + "." + ep.rename(st.Field(x.Field).Name())
 	case *ssa.UnOp:
 		if x.Op == token.MUL {
-			if fa, ok := x.X.(*ssa.FieldAddr); ok {
+			if fa, ok := origin(x.X).(*ssa.FieldAddr); ok {
 				st := structOf(fa.X.Type())
 				return ep.str(fa.X, d+1) + "." + ep.rename(st.Field(fa.Field).Name())
 			}
@@ -503,8 +503,8 @@ func runC18(c *Ctx) {
 		var sel *ssa.Select
 		for _, cm := range commsOfU(tick) {
 			if cm.Dir == types.SendOnly && cm.Sel != nil {
-				if ia, ok := cm.Send.(*ssa.UnOp); ok {
-					if idx, ok := ia.X.(*ssa.IndexAddr); ok && isFieldLoad(idx.X, "test.Bridge", dir.q) {
+				if ia, ok := origin(cm.Send).(*ssa.UnOp); ok {
+					if idx, ok := origin(ia.X).(*ssa.IndexAddr); ok && isFieldLoad(idx.X, "test.Bridge", dir.q) {
 						sel = cm.Sel
 						if k, ok := constInt(idx.Index); !ok || k != 0 {
 							o.Fail(cm.Sel.Pos(), "Tick does not offer the head (index 0) of %s", dir.q)
@@ -529,7 +529,7 @@ func runC18(c *Ctx) {
 		okBlk := cs[0]
 		for _, in := range findU(tick, func(in ssa.Instruction) bool { return isFieldStore(in, "test.Bridge", dir.q) }) {
 			st := in.(*ssa.Store)
-			sl, ok := st.Val.(*ssa.Slice)
+			sl, ok := origin(st.Val).(*ssa.Slice)
 			okS := ok && isFieldLoad(sl.X, "test.Bridge", dir.q) && sl.High == nil
 			if okS {
 				k, isC := constInt(sl.Low)
